@@ -31,3 +31,28 @@ PROPS = {
         "design_ref": "DESIGN.md §7 C07",
     },
 }
+
+PROPS["C08"] = {
+    "title": "Sender link credit",
+    "module": "Theorems.C08",
+    "theorems": [
+        "Amqp.Credit.credit_safe",
+        "Amqp.Credit.one_credit_per_delivery",
+        "Amqp.Credit.drain_exhausts",
+        "Amqp.Credit.notified_created_before_check",
+        "Amqp.Credit.no_lost_wakeup",
+        "Amqp.Credit.wakes",
+        "Amqp.Credit.old_order_loses_wakeup",
+    ],
+    "harness": ["credit"],
+    "gen_files": ["Amqp/Gen/CreditKernels.lean"],
+    "technique": "Lean 4 proof: invariant over flow/send histories on generated u32 kernels; inductive invariant of the check/park/notify transition system over all interleavings; differential runs incl. a forced schedule point",
+    "level_text": "Machine-checked theorems for all flow histories (incl. delivery-counts around 2^32, drain, unset fields) and for every interleaving of the waiting task with the session task in an abstract transition system of tokio's Notify contract; credit arithmetic and the order 'create Notified, then check' are regenerated from link/state.rs; the model is tied to the real SenderFlowState/Producer by seeded differential runs and by scripted interleavings forced through a cfg-guarded schedule point.",
+    "level_note": "Trusted: Lean kernel; rs2lean extraction; tokio Notify contract as stated in Amqp/Credit.lean (a Notified completes iff notify_waiters() was called after its creation; no permit stored); harness. Not modelled: the tokio scheduler itself; Sender::send's surrounding select! (covered by C14/C16 runs).",
+    "assumptions": COMMON_ASSUME + [
+        "tokio::sync::Notify: notify_waiters() wakes exactly the Notified futures created before the call and stores no permit",
+        "one producer (session task) and one consumer (sender) per link",
+        "the search oracle judges only flows whose delivery-count lies between the initial and the current delivery-count",
+    ],
+    "design_ref": "DESIGN.md §7 C08",
+}
